@@ -1307,7 +1307,14 @@ class DateTime(datetime.datetime, Date):
         time: datetime.time,
         tzinfo: datetime.tzinfo | None = None,
     ) -> Self:
-        return cls.instance(datetime.datetime.combine(date, time), tz=tzinfo)
+        dt = datetime.datetime.combine(date, time)
+
+        if tzinfo is not None:
+            # As for the native implementation, an explicit tzinfo
+            # takes precedence over the tzinfo of the time.
+            dt = dt.replace(tzinfo=tzinfo)
+
+        return cls.instance(dt, tz=tzinfo)
 
     def astimezone(self, tz: datetime.tzinfo | None = None) -> Self:
         dt = super().astimezone(tz)
